@@ -132,6 +132,12 @@ def _add_clauses(state, new):
     """add clauses and close under unit resolution (bounded)"""
     have = {f[1] for f in state if isinstance(f, tuple) and f and f[0] == 'cl'}
     work = set(new) - have
+    # an object that is truthy is not None
+    for c in list(work):
+        if len(c) == 1:
+            a, pol = next(iter(c))
+            if pol and _plain_ref(a):
+                work.add(frozenset({(a + ' is None', False)}))
     have |= work
     for _ in range(4):
         units = {next(iter(c)) for c in have if len(c) == 1}
@@ -148,6 +154,23 @@ def _add_clauses(state, new):
         have |= derived
     return frozenset(f for f in state if not (isinstance(f, tuple) and f and f[0] == 'cl')) | \
         frozenset(('cl', c) for c in have)
+
+
+def _plain_ref(text):
+    """the atom is a bare reference (name / attribute path), i.e. a truthiness test of an object"""
+    try:
+        e = ast.parse(text, mode='eval').body
+    except SyntaxError:
+        return False
+    while isinstance(e, ast.Attribute):
+        e = e.value
+    return isinstance(e, ast.Name)
+
+
+def _is_ref(e):
+    while isinstance(e, ast.Attribute):
+        e = e.value
+    return isinstance(e, ast.Name)
 
 
 def _boolish(e):
@@ -273,6 +296,13 @@ class MustFlow:
                             elif isinstance(m, ast.Attribute):
                                 attrs.add(m.attr)
             out = _kill(out, names, attrs)
+            # an alias  x = <name / attribute path>: x is truthy (is None) exactly when the path is
+            if isinstance(expr, ast.Assign) and len(expr.targets) == 1 and isinstance(expr.targets[0], ast.Name) \
+                    and _is_ref(expr.value) and ast.unparse(expr.value) != expr.targets[0].id:
+                m, pth = expr.targets[0].id, ast.unparse(expr.value)
+                out = _add_clauses(out, {frozenset({(m, False), (pth, True)}), frozenset({(m, True), (pth, False)}),
+                                         frozenset({(m + ' is None', False), (pth + ' is None', True)}),
+                                         frozenset({(m + ' is None', True), (pth + ' is None', False)})})
             # a named condition  flag = <boolean expression>:  flag <-> expression
             if isinstance(expr, ast.Assign) and len(expr.targets) == 1 and isinstance(expr.targets[0], ast.Name) \
                     and _boolish(expr.value) and expr.targets[0].id not in {n.id for n in ast.walk(expr.value)
